@@ -37,6 +37,7 @@ COMMUTATIVE_METHODS = {'reduce_or', 'reduce_and', 'frommembers', 'update', 'issu
 SINK_FUNCS = {'Unique', 'tools.Unique', 'print', 'repr', 'str', 'format', 'json.dumps', 'collections.OrderedDict', 'dict',
               'OrderedDict'}
 SINK_METHODS = {'join', 'extend', 'format', 'write', 'writelines', 'writerow', 'writerows', 'append', 'insert'}
+PUBLIC_MODULES = {'definitions', 'contexts', 'lattices', 'lattice_members', 'junctors'}   # classes whose public methods are the API
 ORDERED_FIELDS = {'_objects', '_properties', '_items'}   # Unique / list typed fields: |= keeps insertion order
 
 
@@ -385,6 +386,9 @@ class Analysis:
         if isinstance(par, ast.Return):
             if k == SET:
                 return ok('returned as a set (summarised: callers see a SET)')
+            if (func.parent is None and not func.name.startswith('_') and func.cls is not None and func.module.name in PUBLIC_MODULES
+                    and not any(isinstance(x, (ast.Yield, ast.YieldFrom)) for x in walk(func.body))):
+                return bad(f'returned by the public method {func.cls.name}.{func.name}: the caller sees a sequence in hash order')
             return ok('returned tainted (summarised: callers see a tainted order)')
         if isinstance(par, (ast.Yield,)):
             return bad('yielded value embeds a hash-ordered collection') if k != SET else ok('a set is yielded as a value')
@@ -575,6 +579,9 @@ def commutative_body(loop):
             if isinstance(v, ast.Call) and isinstance(v.func, ast.Attribute):
                 if v.func.attr in ('add', 'discard', 'update', 'difference_update'):
                     return True, f'.{v.func.attr}() on a set'
+                if v.func.attr == 'remove' and len(v.args) == 1 and isinstance(v.args[0], ast.Name) and v.args[0].id in names:
+                    # removing a set of distinct elements, one per iteration: the remaining ones keep their relative order
+                    return True, '.remove(<loop variable>): the survivors do not depend on the removal order'
                 if v.func.attr in ('append', 'extend', 'insert', 'write', 'writerow', 'node', 'edge'):
                     return False, f'.{v.func.attr}() inside the loop'
             if isinstance(v, ast.Call) and (chain(v.func) or [''])[-1] in ('push', 'heappush'):
